@@ -71,6 +71,11 @@ def define(prog: list):
                 if b is None:
                     raise RuntimeError('base failed')
                 bases = (b[tuple(ctype(a) for a in d['bargs'])],) if d['bargs'] else (b,)
+                if d.get('mix'):
+                    m = classes[d['mix'] - 1]
+                    if m is None:
+                        raise RuntimeError('base failed')
+                    bases = bases + (m,)
             if d['gen']:
                 bases = bases + (t.Generic[tuple(TVARS[n] for n in d['gen'])],)
             ann: dict = {}
@@ -140,6 +145,8 @@ def value_candidates(prog: list, i: int, small: bool) -> list:
     j = i
     while j:
         chain.append(prog[j - 1])
+        if prog[j - 1].get('mix'):
+            chain.append(prog[prog[j - 1]['mix'] - 1])
         j = prog[j - 1]['base']
     for dd in reversed(chain):
         for f in dd['own']:
@@ -265,6 +272,8 @@ def shape(prog: list) -> str:
             s += '<' + ','.join(d['gen']) + '>'
         if d['bargs']:
             s += '(base[' + ','.join(_ts(a) for a in d['bargs']) + '])'
+        if d.get('mix'):
+            s += f"(bases {prog[d['base'] - 1]['name']},{prog[d['mix'] - 1]['name']})"
         own = ','.join(('kw ' if f['kw'] == 'T' else '') + text(f['n']) + ':' + _ts(f['t']) + ('=' if f['d']['k'] != 'nodef' else '') for f in d['own'])
         s += '{' + own + '}'
         if d['marker'] < len(d['own']):
